@@ -24,6 +24,7 @@ macro_rules! by_n {
         }
     };
 }
+#[allow(unused_imports)]
 pub(crate) use by_n;
 
 pub fn make_sut(scn: &Value) -> Arc<dyn Sut> {
@@ -35,7 +36,9 @@ pub fn make_sut(scn: &Value) -> Arc<dyn Sut> {
         "pool_atomic" => by_n!(n, mk_pool_atomic),
         "pool_fullsync" => by_n!(n, mk_pool_fullsync),
         other => {
-            if let Some(s) = crate::chan_suts::make(kind, scn) {
+            if let Some(s) = crate::cont_suts::make(kind, scn) {
+                s
+            } else if let Some(s) = crate::chan_suts::make(kind, scn) {
                 s
             } else {
                 panic!("unknown sut {other}")
